@@ -8,6 +8,7 @@
 
 from __future__ import annotations
 
+import builtins
 import copy
 import enum
 import logging
@@ -459,8 +460,14 @@ class RemoteAssertionTraceObserver(ex.RemoteExecutionObserver):
         if not hasattr(typ, "__module__") or not hasattr(typ, "__qualname__"):
             return False
         if typ.__module__ == "builtins":
-            return True
-        return typ.__module__ == config.configuration.module_name
+            # Not every type of the builtins module is a builtin name, e.g.,
+            # generator, list_iterator, function, or NoneType.
+            return getattr(builtins, typ.__qualname__, None) is typ
+        # A class defined inside a function cannot be reached through the module.
+        return (
+            typ.__module__ == config.configuration.module_name
+            and "<locals>" not in typ.__qualname__
+        )
 
 
 class RemoteAssertionVerificationObserver(ex.RemoteExecutionObserver):
